@@ -286,13 +286,13 @@ impl MDBMinimalShard {
     proof { assert(file_section(data0, off, sec)); assert(l0.subrange(0, l0.len() as int) =~= l0); }
 //@ after `loop`
         invariant_except_break
-            reader.pos@ == file_pos(off, sec, file_callback.log@.len() - l0.len()),
+            /*@C09*/ reader.pos@ == file_pos(off, sec, file_callback.log@.len() - l0.len()),
         invariant
             reader.data@ == data0, data0 == old(reader).data@, file_section(data0, off, sec), off >= 0,
             l0.len() <= file_callback.log@.len() <= l0.len() + sec.len(), file_callback.log@.subrange(0, l0.len() as int) == l0,
-            forall|k: int| 0 <= k < file_callback.log@.len() - l0.len() ==> file_view_ok(#[trigger] file_callback.log@[l0.len() + k], data0, file_pos(off, sec, k), sec[k]),
+            /*@C09*/ forall|k: int| 0 <= k < file_callback.log@.len() - l0.len() ==> file_view_ok(#[trigger] file_callback.log@[l0.len() + k], data0, file_pos(off, sec, k), sec[k]),
         ensures
-            file_callback.log@.len() == l0.len() + sec.len(), reader.pos@ == file_pos(off, sec, sec.len() as int) + 48,
+            /*@C09*/ file_callback.log@.len() == l0.len() + sec.len(), reader.pos@ == file_pos(off, sec, sec.len() as int) + 48,
         decreases l0.len() + sec.len() - file_callback.log@.len(),
 //@ before `break;`
             proof { let k = file_callback.log@.len() - l0.len(); if k < sec.len() { assert(file_hdr_at(data0, file_pos(off, sec, k)) == sec[k]); } }
@@ -343,13 +343,13 @@ impl MDBMinimalShard {
     proof { assert(cas_section(data0, off, sec)); assert(l0.subrange(0, l0.len() as int) =~= l0); }
 //@ after `loop`
         invariant_except_break
-            reader.pos@ == cas_pos(off, sec, cas_callback.log@.len() - l0.len()),
+            /*@C09*/ reader.pos@ == cas_pos(off, sec, cas_callback.log@.len() - l0.len()),
         invariant
             reader.data@ == data0, data0 == old(reader).data@, cas_section(data0, off, sec), off >= 0,
             l0.len() <= cas_callback.log@.len() <= l0.len() + sec.len(), cas_callback.log@.subrange(0, l0.len() as int) == l0,
-            forall|k: int| 0 <= k < cas_callback.log@.len() - l0.len() ==> cas_view_ok(#[trigger] cas_callback.log@[l0.len() + k], data0, cas_pos(off, sec, k), sec[k]),
+            /*@C09*/ forall|k: int| 0 <= k < cas_callback.log@.len() - l0.len() ==> cas_view_ok(#[trigger] cas_callback.log@[l0.len() + k], data0, cas_pos(off, sec, k), sec[k]),
         ensures
-            cas_callback.log@.len() == l0.len() + sec.len(), reader.pos@ == cas_pos(off, sec, sec.len() as int) + 48,
+            /*@C09*/ cas_callback.log@.len() == l0.len() + sec.len(), reader.pos@ == cas_pos(off, sec, sec.len() as int) + 48,
         decreases l0.len() + sec.len() - cas_callback.log@.len(),
 //@ before `break;`
             proof { let k = cas_callback.log@.len() - l0.len(); if k < sec.len() { assert(cas_hdr_at(data0, cas_pos(off, sec, k)) == sec[k]); } }
@@ -640,7 +640,7 @@ fn vx_glue_from_reader(reader: &mut VxSR, include_files: bool, include_cas: bool
         invariant
             k <= fcb.log@.len(), fcb.log@.len() == fsec.len(), file_section(data, foff, fsec), foff >= 48,
             forall|i: int| 0 <= i < fsec.len() ==> file_view_ok(#[trigger] fcb.log@[i], data, file_pos(foff, fsec, i), fsec[i]),
-            include_files ==> built_files(data_vec@, data, foff, fsec, k as int) && file_offsets@.len() == k
+            /*@C09*/ include_files ==> built_files(data_vec@, data, foff, fsec, k as int) && file_offsets@.len() == k
                 && forall|i: int| 0 <= i < k ==> #[trigger] file_offsets@[i] == file_pos(0, fsec, i),
             !include_files ==> data_vec@.len() == 0 && file_offsets@.len() == 0,
             include_files ==> file_pos(0, fsec, fsec.len() as int) <= u32::MAX,
@@ -681,8 +681,8 @@ fn vx_glue_from_reader(reader: &mut VxSR, include_files: bool, include_cas: bool
             invariant
                 j <= ccb.log@.len(), ccb.log@.len() == csec.len(), cas_section(data, coff, csec), coff >= 0, cis == dv_mid.len(), cis >= 0,
                 forall|i: int| 0 <= i < csec.len() ==> cas_view_ok(#[trigger] ccb.log@[i], data, cas_pos(coff, csec, i), csec[i]),
-                built_cas(data_vec@, cis, data, coff, csec, j as int), cas_offsets@.len() == j, data_vec@ == dv_mid + rest,
-                forall|i: int| 0 <= i < j ==> #[trigger] cas_offsets@[i] == cas_pos(cis, csec, i),
+                /*@C09*/ built_cas(data_vec@, cis, data, coff, csec, j as int), cas_offsets@.len() == j, data_vec@ == dv_mid + rest,
+                /*@C09*/ forall|i: int| 0 <= i < j ==> #[trigger] cas_offsets@[i] == cas_pos(cis, csec, i),
                 cas_pos(cis, csec, csec.len() as int) + 48 <= u32::MAX,
             decreases ccb.log@.len() - j,
         {
